@@ -252,6 +252,14 @@ func (c *ctx) replay(lines []string) {
 		case "val":
 			sub, _ := strconv.ParseUint(f[3], 10, 64)
 			bad := len(f) > 4 && f[4] == "1"
+			if len(f) > 4 && f[4] == "2" {
+				if f[2] == "form.Data" {
+					formWitness(c, int(sub))
+				} else if e := find(f[2]); e != nil {
+					e.wit(c, int(sub))
+				}
+				continue
+			}
 			switch f[2] {
 			case "form.Data":
 				formCase(c, sub, bad, "replay")
@@ -293,6 +301,14 @@ func Run(r *common.Run) error {
 		if e := find(w.typ); e != nil {
 			c.xmlCase(e, []byte(w.doc), "corpus")
 		}
+	}
+	for i := range registry {
+		for k := 0; k < registry[i].nWit; k++ {
+			registry[i].wit(c, k)
+		}
+	}
+	for k := range formWitnesses {
+		formWitness(c, k)
 	}
 	for _, sub := range []uint64{1, 2, 3, 4, 5, 6, 7, 8} {
 		formCase(c, sub, false, "corpus")
